@@ -215,6 +215,84 @@ def lookalike_contexts(i: int, j: int, store: int):
             sb.close()
 
 
+FAIL_KINDS = ["returns", "raises-a-memoized-exception", "raises-NonMemoizedException", "nested-call-prevented", "nested-call-raises-NonMemoizedException",
+              "batch-with-a-NonMemoizedException-element"]
+SRC_FAIL = (
+    "from twosigma.memento.exception import NonMemoizedException\n"
+    "@m.memento_function(version='1')\n"
+    "def plain(x):\n    _trace.append(('plain', x)); return x + 1\n"
+    "@m.memento_function(version='1')\n"
+    "def inner_nm(x):\n    _trace.append(('inner_nm', x)); raise NonMemoizedException('transient')\n"
+    "_KIND = [0]\n"
+    "@m.memento_function(version='1')\n"
+    "def first(x):\n"
+    "    _trace.append(('first', x))\n"
+    "    k = _KIND[0]\n"
+    "    if k == 1: raise ValueError('boom')\n"
+    "    if k == 2: raise NonMemoizedException('transient')\n"
+    "    if k == 3: return plain.with_prevent_further_calls(True)(x) + plain(x + 50)\n"
+    "    if k == 4: return inner_nm(x)\n"
+    "    if k == 5: return inner_nm.call_batch([{'x': x}, {'x': x + 1}])\n"
+    "    return x\n"
+)
+
+
+@obligation(
+    "C16.context_ends_with_the_call",
+    covers=tuple("first-call:" + k for k in FAIL_KINDS),
+    split={"kind": list(range(len(FAIL_KINDS)))},
+    bounds="a call under context arguments {'a': 1} that returns / raises a memoized exception / raises NonMemoizedException / has a "
+           "nested call (made with further calls prevented, or raising NonMemoizedException, singly or in a batch) - made as fn(x), "
+           "call_batch or map_over_range - is followed ON THE SAME THREAD by a plain call without context: that call is keyed, stored "
+           "and recorded without context arguments (a later plain call hits it, a call under the earlier context misses it), and no "
+           "frame of the first call is left on the call stack; 3 stores",
+    variables="choice: how the first call ends, call style, store",
+    budget_s={"quick": 120, "thorough": 300},
+    choice_vars=3,
+)
+def context_ends_with_the_call(kind: int, style: int, store: int):
+    from twosigma.memento.call_stack import CallStack
+
+    style = pick(style, 3)
+    store = pick(store, 3)
+    with concrete_region():
+        cover("first-call:" + FAIL_KINDS[kind])
+        sb = Sandbox(kinds=STORES[store])
+        prog = Program("vpc16f")
+        try:
+            prog.exec(SRC_FAIL)
+            prog._KIND[0] = kind
+            c1 = {"a": 1}
+            fc = prog.first.with_context_args(dict(c1))
+            try:
+                if style == 0:
+                    fc(1)
+                elif style == 1:
+                    fc.call_batch([{"x": 1}], raise_first_exception=True)
+                else:
+                    fc.map_over_range(x=[1])
+            except Exception:  # noqa - how the first call ends is the scenario, not the subject
+                pass
+            check("call-stack-empty-after-the-first-call", CallStack.get().depth() == 0, CallStack.get().depth())
+            n0 = len(prog.trace)
+            r = prog.plain(7)
+            check("plain-call-value", r == 8, r)
+            mem = prog.plain.memento(7)
+            check("plain-call-stored-without-context", mem is not None, None)
+            got = mem.invocation_metadata.fn_reference_with_args.context_args
+            check("plain-call-recorded-without-context-arguments", got == {}, got)
+            check("nothing-stored-under-the-earlier-context", prog.plain.with_context_args(dict(c1)).memento(7) is None, None)
+            n1 = len(prog.trace)
+            prog.plain(7)
+            check("later-plain-call-hits", len(prog.trace) == n1, list(prog.trace)[n1:])
+            prog.plain.with_context_args(dict(c1))(7)
+            check("call-under-the-earlier-context-is-a-different-call", len(prog.trace) == n1 + 1, list(prog.trace)[n1:])
+            check("call-stack-empty-afterwards", CallStack.get().depth() == 0, CallStack.get().depth())
+        finally:
+            prog.close()
+            sb.close()
+
+
 @obligation(
     "C16.prevent",
     covers=("prevented", "allowed-when-memoized-too"),
